@@ -49,19 +49,34 @@ Record fsys := {
   f_mf : dir -> contents;
   f_env : dir -> envid;
   f_main : dir -> option (nat * mstate);
-  f_cache : ename -> option program }.
+  f_cache : ename -> option program;
+  f_out : dir -> option program }.      (* the output file of `mage -compile <out>` in a directory *)
 
 Definition upd_main (fs : fsys) (d : dir) (v : option (nat * mstate)) : fsys :=
   {| f_mf := f_mf fs; f_env := f_env fs;
      f_main := fun x => if Nat.eqb x d then v else f_main fs x;
-     f_cache := f_cache fs |}.
+     f_cache := f_cache fs; f_out := f_out fs |}.
 Definition upd_cache (fs : fsys) (e : ename) (v : option program) : fsys :=
   {| f_mf := f_mf fs; f_env := f_env fs; f_main := f_main fs;
-     f_cache := fun x => if String.eqb x e then v else f_cache fs x |}.
+     f_cache := fun x => if String.eqb x e then v else f_cache fs x; f_out := f_out fs |}.
+Definition upd_out (fs : fsys) (d : dir) (v : option program) : fsys :=
+  {| f_mf := f_mf fs; f_env := f_env fs; f_main := f_main fs; f_cache := f_cache fs;
+     f_out := fun x => if Nat.eqb x d then v else f_out fs x |}.
+(* mage -clean: removeContents(cacheDir) - taken as ONE step (really ReadDir + one Remove per file) *)
+Definition clear_cache (fs : fsys) : fsys :=
+  {| f_mf := f_mf fs; f_env := f_env fs; f_main := f_main fs; f_cache := fun _ => None; f_out := f_out fs |}.
+
+(* the command (mage/main.go:152-176 ParseAndRun):
+     CRun      `mage [-f] [-l | -h] words...`: Invoke, the compiled magefile is run with the words (-l / -h only change
+               what is handed to it)
+     CCompile  `mage -compile <out>`: Invoke with CompileOut: no cache entry, the binary goes to <out> in the directory
+     CClean    `mage -clean`: removeContents(cacheDir)
+     CInit     `mage -init`: creates magefile.go in the directory (O_EXCL), nothing shared is touched *)
+Inductive cmd := CRun | CCompile | CClean | CInit.
 
 (* one invocation: `mage [-f] args` started in directory i_dir with MAGEFILE_HASHFAST = i_hashfast,
    where `go env GOCACHE` is non-empty iff i_gocache *)
-Record inv := { i_dir : dir; i_hashfast : bool; i_gocache : bool; i_force : bool; i_args : args }.
+Record inv := { i_dir : dir; i_hashfast : bool; i_gocache : bool; i_force : bool; i_args : args; i_cmd : cmd }.
 
 Inductive pc := PStale | PList | PHash | PStat | PParse | PCreate | PWrite | PChtimes | PBuild
               | PFailRm | PRemove | PExec | PDeferRm | PExecCached | PDone.
@@ -86,8 +101,8 @@ Definition exec_result (fs : fsys) (e : ename) (D : dir) (a : args) : result :=
   | None => fail                     (* exec of a missing file: sh.ExitStatus = 1 *)
   end.
 
-(* process number i (its fresh inode is numbered S i) takes one step *)
-Definition step (i : nat) (iv : inv) (fs : fsys) (p : proc) : fsys * proc :=
+(* process number i (its fresh inode is numbered S i) takes one step: a plain run *)
+Definition step_run (i : nat) (iv : inv) (fs : fsys) (p : proc) : fsys * proc :=
   let D := i_dir iv in
   match p_pc p with
   | PStale =>
@@ -142,6 +157,80 @@ Definition step (i : nat) (iv : inv) (fs : fsys) (p : proc) : fsys * proc :=
   | PDeferRm => (upd_main fs D None, goto p PDone)
   | PExecCached => (fs, with_res p PDone (exec_result fs (p_exe p) D (i_args iv)))
   | PDone => (fs, p)
+  end.
+
+(* `mage -compile <out>`: the same Invoke with exePath = <out> inside the directory: no ExeName, the stat of
+   lines 398-414 looks at <out> (and RUNS it when it exists, hash mode, no -f), the build installs <out>, and
+   after the build mage returns 0 without running anything (line 463).  [behave q D ""]: <out> run without words. *)
+Definition step_compile (i : nat) (iv : inv) (fs : fsys) (p : proc) : fsys * proc :=
+  let D := i_dir iv in
+  match p_pc p with
+  | PStale =>
+      (match f_main fs D with Some _ => upd_main fs D None | None => fs end, goto p PList)
+  | PList =>
+      match f_main fs D with
+      | Some (_, Partial) => (fs, with_res p PDone fail)
+      | _ => if String.eqb (f_mf fs D) "" then (fs, with_res p PDone fail) else (fs, goto p PHash)
+      end
+  | PHash => (fs, goto p PStat)
+  | PStat =>
+      let useCache := if i_hashfast iv then false else i_gocache iv in
+      if useCache then (fs, goto p PParse)
+      else match f_out fs D with
+           | Some q => if i_force iv then (fs, goto p PParse) else (fs, with_res p PDone (behave q D ""))
+           | None => (fs, goto p PParse)
+           end
+  | PParse =>
+      match gen (f_mf fs D) with
+      | None => (fs, with_res p PDone fail)
+      | Some g => (fs, {| p_pc := PCreate; p_exe := p_exe p; p_gen := g; p_fd := p_fd p; p_res := p_res p |})
+      end
+  | PCreate =>
+      let ino := match f_main fs D with Some (n, _) => n | None => S i end in
+      (upd_main fs D (Some (ino, Partial)),
+       {| p_pc := PWrite; p_exe := p_exe p; p_gen := p_gen p; p_fd := ino; p_res := p_res p |})
+  | PWrite =>
+      match f_main fs D with
+      | Some (n, _) => if Nat.eqb n (p_fd p) then (upd_main fs D (Some (n, Full (p_gen p))), goto p PChtimes)
+                       else (fs, goto p PChtimes)
+      | None => (fs, goto p PChtimes)
+      end
+  | PChtimes =>
+      match f_main fs D with
+      | Some _ => (fs, goto p PBuild)
+      | None => (fs, with_res p PDone fail)
+      end
+  | PBuild =>
+      match f_main fs D with
+      | Some (_, Full g) =>
+          match compile (f_env fs D) (f_mf fs D) g with
+          | Some q => (upd_out fs D (Some q), goto p PRemove)
+          | None => (fs, with_res p PFailRm fail)
+          end
+      | _ => (fs, with_res p PFailRm fail)
+      end
+  | PFailRm => (upd_main fs D None, goto p PDone)
+  | PRemove => (upd_main fs D None, with_res p PDeferRm ("", 0%Z))      (* return 0: nothing is run *)
+  | PDeferRm => (upd_main fs D None, goto p PDone)
+  | PExec | PExecCached | PDone => (fs, goto p PDone)
+  end.
+
+(* what mage itself prints when a command that runs nothing succeeds ("<cache> cleaned", "magefile.go created") is,
+   like every other output, a value the harness supplies: [behave "" D args], the "program" being none *)
+Definition step (i : nat) (iv : inv) (fs : fsys) (p : proc) : fsys * proc :=
+  match i_cmd iv with
+  | CRun => step_run i iv fs p
+  | CCompile => step_compile i iv fs p
+  | CClean =>
+      match p_pc p with
+      | PDone => (fs, p)
+      | _ => (clear_cache fs, with_res p PDone (behave "" (i_dir iv) (i_args iv)))
+      end
+  | CInit =>
+      match p_pc p with
+      | PDone => (fs, p)
+      | _ => (fs, with_res p PDone (if String.eqb (f_mf fs (i_dir iv)) "" then behave "" (i_dir iv) (i_args iv) else fail))
+      end
   end.
 
 Record sys := { s_fs : fsys; s_procs : list proc }.
@@ -211,6 +300,9 @@ Definition content_addressed (invs : list inv) (fs : fsys) : Prop :=
 Definition cache_sound (invs : list inv) (fs : fsys) : Prop :=
   forall i iv q, nth_error invs i = Some iv ->
     f_cache fs (name (f_mf fs (i_dir iv))) = Some q -> prog_of fs (i_dir iv) = Some q.
+
+(* every invocation is a plain run (mage [-f] [-l|-h] words) *)
+Definition all_run (invs : list inv) : Prop := forall i iv, nth_error invs i = Some iv -> i_cmd iv = CRun.
 
 (* an invocation that has not started or has finished *)
 Definition quiescent (p : proc) : Prop := p_pc p = PStale \/ p_pc p = PDone.
